@@ -68,7 +68,9 @@ struct Sched {
     bool all_done() const;
     int  n() const { return (int)lts.size(); }
     // random schedule: at each step continue the current thread unless rng()%switch_den==0 (switch_den=1: uniform)
+    // switch_den < 0: PCT-style priority schedule with -switch_den priority-change points (run_pct)
     int  run_random(uint64_t seed, long maxsteps, int switch_den = 1);
+    int  run_pct(uint64_t seed, long maxsteps, int depth);
     // follow a list of thread ids as far as possible (skipping non-runnable), then round robin
     int  run_schedule(const std::vector<int>& sched, long maxsteps);
     int  finish(long maxsteps = 5000000);   // round robin to completion
